@@ -355,3 +355,61 @@ Proof.
     injection H as <- <-. destruct (IH _ _ _ _ _ _ Hp E) as (t0 & tl & g1 & Ht & Hg).
     exists (tv :: t0), tl, g1. rewrite Ht, Hg. split; reflexivity.
 Qed.
+
+(* ------------------------------------------------------------ accessors *)
+Lemma list_set_spec : forall (A : Type) (l : list A) i v l', list_set l i v = Some l' ->
+  length l' = length l /\ nth_error l' i = Some v /\ (forall k, k <> i -> nth_error l' k = nth_error l k) /\ (i < length l)%nat.
+Proof.
+  induction l as [|y r IH]; intros i v l' H; [discriminate H|]. destruct i as [|i]; cbn [list_set] in H.
+  - injection H as <-. repeat split; try reflexivity; [|cbn; lia]. intros [|k] Hk; [contradiction|reflexivity].
+  - destruct (list_set r i v) as [r'|] eqn:E; [|discriminate H]. injection H as <-.
+    destruct (IH _ _ _ E) as (I1 & I2 & I3 & I4). cbn [length nth_error]. repeat split; [lia|exact I2| |lia].
+    intros [|k] Hk; [reflexivity|]. cbn [nth_error]. apply I3. lia.
+Qed.
+
+Lemma list_set_total : forall (A : Type) (l : list A) i v, (i < length l)%nat -> exists l', list_set l i v = Some l'.
+Proof.
+  induction l as [|y r IH]; intros i v H; [cbn in H; lia|]. destruct i as [|i]; cbn [list_set]; [eauto|].
+  destruct (IH i v ltac:(cbn in H; lia)) as [r' ->]. eauto.
+Qed.
+
+Lemma ga_set_spec : forall x i v y, ga_set x i v = Some y ->
+  length (ga_genome y) = length (ga_genome x) /\ ga_get y i = Some v /\
+  (forall k, k <> i -> ga_get y k = ga_get x k) /\ ga_age y = ga_age x /\ (i < length (ga_genome x))%nat.
+Proof.
+  intros x i v y H. unfold ga_set in H. destruct (list_set (ga_genome x) i v) as [g|] eqn:E; [|discriminate H].
+  injection H as <-. destruct (list_set_spec _ _ _ _ _ E) as (H1 & H2 & H3 & H4). unfold ga_get. cbn [ga_genome ga_age]. auto.
+Qed.
+
+Lemma list_set_in_range : forall ranges g i v g' lo hi, in_range ranges g -> list_set g i v = Some g' ->
+  nth_error ranges i = Some (lo, hi) -> lo <= v < hi -> in_range ranges g'.
+Proof.
+  induction ranges as [|rg rs IH]; intros g i v g' lo hi Hr Hs Hn Hv; inversion Hr as [|? x ? xs Hx Hxs]; subst; [discriminate Hs|].
+  destruct i as [|i]; cbn [list_set] in Hs.
+  - injection Hs as <-. cbn in Hn. injection Hn as ->. constructor; [exact Hv|exact Hxs].
+  - destruct (list_set xs i v) as [r'|] eqn:E; [|discriminate Hs]. injection Hs as <-.
+    constructor; [exact Hx|]. eapply IH; eassumption.
+Qed.
+
+(* the caller's duty: a value inside the interval of position i keeps the individual in range *)
+Lemma ga_set_in_range : forall ranges x i v y lo hi, in_range ranges (ga_genome x) -> ga_set x i v = Some y ->
+  nth_error ranges i = Some (lo, hi) -> lo <= v < hi -> in_range ranges (ga_genome y).
+Proof.
+  intros ranges x i v y lo hi Hr H Hn Hv. unfold ga_set in H.
+  destruct (list_set (ga_genome x) i v) as [g|] eqn:E; [|discriminate H]. injection H as <-. cbn [ga_genome].
+  eapply list_set_in_range; eassumption.
+Qed.
+
+Lemma de_assign_spec : forall x v y, de_assign x v = Some y ->
+  de_genome y = v /\ de_age y = de_age x /\ length v = length (de_genome x).
+Proof.
+  intros x v y H. unfold de_assign in H. destruct (Nat.eqb (length v) (length (de_genome x))) eqn:E; [|discriminate H].
+  injection H as <-. apply PeanoNat.Nat.eqb_eq in E. auto.
+Qed.
+
+Lemma ga_eqb_spec : forall x y, ga_eqb x y = true <-> ga_genome x = ga_genome y.
+Proof.
+  intros [g a] [h b]. unfold ga_eqb. cbn [ga_genome]. revert h. induction g as [|u g IH]; intros [|w h]; cbn [list_eqb]; try (split; [discriminate|discriminate]).
+  - split; reflexivity.
+  - rewrite andb_true_iff, Z.eqb_eq, IH. split; [intros [-> ->]; reflexivity|intro H; injection H; auto].
+Qed.
